@@ -186,6 +186,9 @@ def sinc_sites():
     s.append(Site('sinc_validate_range_bad', SINC, None, 'validate_ratios', 'ifcond', nth=2, ty='bool'))
     s.append(Site('mi_sinc_len', SINC, None, 'make_interpolator', 'let', var='sinc_len', nth=0, ty='usize'))
     s.append(Site('mi_f_cutoff', SINC, None, 'make_interpolator', 'let', var='f_cutoff', nth=0, ty='f32'))
+    # the ratio the public constructors hand to make_interpolator (it decides the anti-aliasing cutoff)
+    s.append(Site('si_new_mi_ratio', SINC, C_SI, 'new', 'callarg', callee='make_interpolator', arg=1, ty='f64'))
+    s.append(Site('so_new_mi_ratio', SINC, C_SO, 'new', 'callarg', callee='make_interpolator', arg=1, ty='f64'))
     R = 'SincFixedIn'
     s += [
         Site('si_new_buffer_len', SINC, C_SI, 'new_with_interpolator', 'let', var='buffer', ty='usize',
